@@ -201,6 +201,9 @@ def stage_retry(ctx):
             def is_closed(self):
                 return self.closed
 
+            def is_connection_usable(self):          # peewee's own definition for these drivers
+                return not self.closed
+
             def close(self):
                 events.append("close")
                 self.closed = True
